@@ -316,8 +316,11 @@ def real_stream_scripted():
     if not hasattr(mt, "_random"):
         return None
 
-    class Gen:
+    import random as _random
+
+    class Gen(_random.Random):
         def __init__(self):
+            super().__init__(12345)
             self.script = ()
             self.i = 0
 
@@ -325,15 +328,6 @@ def real_stream_scripted():
             i = self.i
             self.i += 1
             return self.script[i] if i < len(self.script) else 0.4375
-
-        def seed(self, *a):
-            pass
-
-        def getstate(self):
-            return self.i
-
-        def setstate(self, st):
-            self.i = st
     g = Gen()
     mt._random = g
 
